@@ -178,10 +178,16 @@ func RandomModel(r *rand.Rand, o ModelOpts) *Model {
 			m.PMTs = append(m.PMTs, pickPID(r, used))
 		}
 		nu := 1 + r.IntN(o.MaxUnits)
+		// a PAT is the union of its sections: sometimes every PMT PID is announced by one section only
+		split := len(m.PMTs) >= 2 && r.IntN(3) == 0
+		splitN := 2 + r.IntN(2)
 		for k := 0; k < nu; k++ {
 			nsec := 1
 			if r.IntN(4) == 0 {
 				nsec = 2 + r.IntN(2)
+			}
+			if split {
+				nsec = splitN
 			}
 			var secs []*astits.PSISection
 			for j := 0; j < nsec; j++ {
@@ -191,6 +197,9 @@ func RandomModel(r *rand.Rand, o ModelOpts) *Model {
 				}
 				s := SimpleSection(r, refts.KindPAT, serial, extra)
 				for i, p := range m.PMTs {
+					if split && i%nsec != j {
+						continue
+					}
 					s.Syntax.Data.PAT.Programs = append(s.Syntax.Data.PAT.Programs, &astits.PATProgram{ProgramNumber: uint16(i + 1), ProgramMapID: p})
 				}
 				if r.IntN(3) == 0 {
